@@ -26,6 +26,10 @@ CHECKS = {
             'replacements from F(3) x tuples from family G', 'DESIGN.md 2/C04'),
     'C06': (MC[0], MC[1], 'every history over the stated alphabets up to the completed depth; '
             'exact-count / canonicity / denotation invariants in every state', 'DESIGN.md 2/C06'),
+    'C07': (MC[0], MC[1] + ' + exhaustive sweeps over held sets, orders, targets and pairings',
+            'every swap case over held singletons/pairs of F(3), every source x target permutation, every '
+            'pairing, sifting to a fixed point (all level-visiting orders observed), 0/1-variable managers; '
+            'BFS over reordering histories', 'DESIGN.md 2/C07'),
     'C09': (MC[0], 'stateless model checking of the implementation: deviation-bounded enumeration of '
             'reordering-trigger schedules (0, 1, 2 deviations + natural thresholds) under a controlled '
             'trigger seam',
